@@ -391,7 +391,7 @@ class FakeVCS:
             f.write(str(k))
 
     def reset(self):
-        for n in ("fail_match", "fail_nth"):
+        for n in ("fail_match", "fail_nth", "fetched"):
             try:
                 os.unlink(os.path.join(self.ctl, n))
             except FileNotFoundError:
